@@ -55,6 +55,7 @@ type collSpan struct {
 	Pad  int   `json:"pad,omitempty"`  // length of the padding field (controls DataSize)
 	Kind int   `json:"kind,omitempty"` // 0 span, 1 span event, 2 link
 	Age  int64 `json:"age,omitempty"`  // real-clock age given to the span after it was buffered (ns)
+	Via  int   `json:"via,omitempty"`  // 0: processSpan called directly on the parked worker; 1: real AddSpan; 2: real AddSpanFromPeer (channel + worker loop)
 }
 
 type collCfg struct {
@@ -73,7 +74,7 @@ type collRule struct {
 }
 
 type collOp struct {
-	Op    string    `json:"op"`          // span | tick | eject | reload | alloc | stop
+	Op    string    `json:"op"`          // span | tick | ltick | eject | reload | alloc | stop
 	D     int64     `json:"d,omitempty"` // clock advance before the op (ns)
 	W     int       `json:"w,omitempty"` // worker (tick / eject), reduced mod worker count
 	Span  *collSpan `json:"span,omitempty"`
@@ -90,6 +91,8 @@ type collInput struct {
 	T0       int64        `json:"t0"`
 	Ops      []collOp     `json:"ops"`
 	Flush    bool         `json:"flush,omitempty"` // finish with late ticks until every buffer is empty
+	ShrinkRound int       `json:"shrink_round,omitempty"` // bookkeeping of collShrink
+	ShrinkMax   int       `json:"shrink_max,omitempty"`   // cap on shrink rounds (0 = 3)
 }
 
 // ---------------------------------------------------------------- doubles
@@ -284,7 +287,8 @@ func collRun(in collInput) (*collResult, error) {
 			ShutdownDelay: config.Duration(time.Millisecond),
 		},
 	}
-	clock := &collClock{Clock: clockwork.NewFakeClockAt(time.Unix(0, in.T0))}
+	fake := clockwork.NewFakeClockAt(time.Unix(0, in.T0))
+	clock := &collClock{Clock: fake}
 	clock.now.Store(in.T0)
 	tx := &collTx{barrier: make(chan struct{}, 1)}
 	met := &collMetrics{}
@@ -413,7 +417,7 @@ func collRun(in collInput) (*collResult, error) {
 		o.Now = now
 		o.Fwd = tx.take()
 		o.Bufs = snapshot()
-		if o.Kind == "alloc" || o.Kind == "stop" {
+		if o.Kind == "alloc" || o.Kind == "stop" || o.Kind == "ltick" {
 			o.LeftW = map[int][]int{}
 			for w := 0; w < nw; w++ {
 				l := diff(prev[w], o.Bufs[w])
@@ -463,7 +467,40 @@ func collRun(in collInput) (*collResult, error) {
 			sp.Data.MetaAnnotationType = kind
 			res.Sizes[s.Sid] = sp.GetDataSize()
 			w := res.Owner[s.Tid]
-			coll.VerifC01ProcessSpan(w, sp)
+			if s.Via == 0 {
+				coll.VerifC01ProcessSpan(w, sp)
+			} else {
+				// the real ingest path: AddSpan routes by trace id and queues the span; the worker's
+				// own loop takes it from the channel and calls processSpan
+				unpark()
+				var err error
+				if s.Via == 1 {
+					err = coll.AddSpan(sp)
+				} else {
+					err = coll.AddSpanFromPeer(sp)
+				}
+				if err != nil {
+					return nil, fmt.Errorf("AddSpan: %v", err)
+				}
+				for t0 := time.Now(); time.Since(t0) < 5*time.Second; {
+					q := 0
+					for k := 0; k < nw; k++ {
+						q += coll.VerifC01QueueLen(k)
+					}
+					if q == 0 {
+						break
+					}
+					time.Sleep(20 * time.Microsecond)
+				}
+				park() // returns when every worker is back in its select: processSpan has finished
+				for k, b := range snapshot() { // the worker that really got the span
+					for _, e := range b {
+						if e.Tid == s.Tid {
+							w = k
+						}
+					}
+				}
+			}
 			if s.Age > 0 {
 				sp.ArrivalTime = time.Now().Add(-time.Duration(s.Age))
 			}
@@ -472,6 +509,28 @@ func collRun(in collInput) (*collResult, error) {
 			w := ((op.W % nw) + nw) % nw
 			coll.VerifC01SendExpired(w, time.Unix(0, now))
 			runErr = observe(collObs{Kind: "tick", W: w})
+		case "ltick":
+			// the REAL ticker branch of collect(): every worker is resumed, the fake clock behind the
+			// tickers is advanced by one SendTicker period (each ticker fires exactly once), and each
+			// worker runs sendExpiredTracesInCache(Clock.Now()) with Clock.Now() = this op's instant
+			if op.D <= 0 {
+				now++
+				clock.now.Store(now)
+			}
+			unpark()
+			fake.Advance(time.Duration(conf.GetTracesConfig().SendTicker))
+			for t0 := time.Now(); time.Since(t0) < 5*time.Second; {
+				done := true
+				for k := 0; k < nw; k++ {
+					done = done && coll.VerifC01HealthAt(k) == now
+				}
+				if done {
+					break
+				}
+				time.Sleep(20 * time.Microsecond)
+			}
+			park()
+			runErr = observe(collObs{Kind: "ltick"})
 		case "eject":
 			w := ((op.W % nw) + nw) % nw
 			coll.VerifC01SendEarly(w, int(op.Bytes))
@@ -706,7 +765,7 @@ func collCoq(r *collResult) string {
 			if op.Cfg == nil {
 				continue
 			}
-		case "tick", "eject", "alloc", "stop":
+		case "tick", "ltick", "eject", "alloc", "stop":
 		default:
 			continue
 		}
@@ -733,6 +792,12 @@ func collCoq(r *collResult) string {
 				ls = append(ls, collIntsN(o.LeftW[w]))
 			}
 			opc = fmt.Sprintf("(IAlloc %s %s %s)", cq.Z(int64(o.Alloc)), cq.Z(int64(o.Max)), cq.List(ls))
+		case "ltick":
+			var ls []string
+			for w := 0; w < nw; w++ {
+				ls = append(ls, collIntsN(o.LeftW[w]))
+			}
+			opc = fmt.Sprintf("(ITickAll %s)", cq.List(ls))
 		case "stop":
 			var ls []string
 			for w := 0; w < nw; w++ {
@@ -752,24 +817,63 @@ func collCoq(r *collResult) string {
 		cq.N(uint64(r.NTr)), cq.N(uint64(flush)), cq.List(items))
 }
 
-// collShrink: drop one op, drop the flush, drop a rule table entry.
+// collShrink proposes smaller inputs, big cuts first (the check takes the first candidate that still
+// fails): keep a prefix, drop a block, drop one op, one worker, drop rules. The number of rounds is
+// capped through a counter carried in the input so that a failing run stays short.
 func collShrink(raw json.RawMessage) []json.RawMessage {
 	var in collInput
 	if json.Unmarshal(raw, &in) != nil {
 		return nil
 	}
+	maxRounds := 3
+	if in.ShrinkMax > 0 {
+		maxRounds = in.ShrinkMax
+	}
+	if in.ShrinkRound >= maxRounds {
+		return nil
+	}
+	in.ShrinkRound++
 	var out []json.RawMessage
+	seen := map[string]bool{}
 	add := func(c collInput) {
 		b, _ := json.Marshal(c)
-		out = append(out, b)
+		if !seen[string(b)] && len(out) < 64 {
+			seen[string(b)] = true
+			out = append(out, b)
+		}
 	}
-	for i := range in.Ops {
+	n := len(in.Ops)
+	dropBlock := func(i, j int) { // remove ops[i:j], keeping the absolute times of the later ops
+		if i < 0 || j > n || i >= j {
+			return
+		}
 		c := in
-		c.Ops = append(append([]collOp{}, in.Ops[:i]...), in.Ops[i+1:]...)
-		if i+1 < len(in.Ops) { // keep absolute times of later ops
-			c.Ops[i].D += in.Ops[i].D
+		c.Ops = append(append([]collOp{}, in.Ops[:i]...), in.Ops[j:]...)
+		if j < n {
+			var d int64
+			for k := i; k < j; k++ {
+				d += in.Ops[k].D
+			}
+			c.Ops[i].D += d
 		}
 		add(c)
+	}
+	if in.Flush {
+		c := in
+		c.Flush = false
+		add(c)
+	}
+	for _, frac := range []int{2, 3, 4, 6} { // halves, thirds, quarters, sixths
+		sz := n / frac
+		if sz < 2 {
+			continue
+		}
+		for i := n - sz; i >= 0; i -= sz {
+			dropBlock(i, i+sz)
+		}
+	}
+	for i := n - 1; i >= 0; i-- {
+		dropBlock(i, i+1)
 	}
 	if in.Workers > 1 {
 		c := in
@@ -841,6 +945,13 @@ func collTags(r *collResult) []string {
 		}
 		if o.Kind == "tick" && len(o.Left) > 0 {
 			add("tick-decides")
+		}
+		if o.Kind == "ltick" {
+			for _, l := range o.LeftW {
+				if len(l) > 0 {
+					add("real-ticker-decides")
+				}
+			}
 		}
 		if o.Kind == "eject" && len(o.Left) > 0 {
 			add("eject-decides")
